@@ -52,6 +52,7 @@ class Ctx:
         self.notes = []
         self.exhaustive = {}
         self.model_failures = []
+        self.drivers = [prop]
         self._pool = None
         self._pool_rel = None
 
@@ -60,7 +61,8 @@ class Ctx:
         t0 = Timer()
         outs, failures = coqrun.eval_terms(terms, timeout=timeout, label=label or self.prop,
                                            shards=shards or coqrun.NCPU,
-                                           imports="From HDW Require Import Run.D%s.\n" % (driver or self.prop))
+                                           imports="From HDW Require Import Model.Json %s.\n" % " ".join(
+                                               "Run.D" + d for d in ([driver] if driver else self.drivers)))
         self.model_failures += failures
         log("   model: %d terms in %.1fs" % (len(terms), t0.s()))
         return outs
@@ -168,6 +170,7 @@ def main():
         log("   problem: " + p)
 
     ctx = Ctx(prop, tier, seed, bins)
+    ctx.drivers = list(getattr(mod, "DRIVERS", [prop]))
     if args.replay:
         rec = json.load(open(args.replay))
         ok = mod.replay(ctx, rec) if hasattr(mod, "replay") else None
